@@ -1401,6 +1401,16 @@ class Interp:
         if isinstance(obj, ClassInfo):
             if name == "__name__":
                 return obj.name
+            if name == "__qualname__" and "__qualname__" not in obj.attrs:
+                return obj.qualname
+            if name == "__module__" and "__module__" not in obj.attrs:
+                return obj.module
+            if name == "__mro__":
+                return tuple(obj.mro)
+            if name == "__bases__":
+                return tuple(obj.bases)
+            if name == "__doc__" and "__doc__" not in obj.attrs:
+                return ast.get_docstring(obj.node) if obj.node is not None else None
             v = self.lookup_class_attr(obj, name)
             if v is not MISSING:
                 return self.bind(v, None, obj)
@@ -1410,6 +1420,10 @@ class Interp:
                 m = self.models.ext_class_attr(self, obj, eb, name)
                 if m is not MISSING:
                     return m
+            if name.startswith("__") and name.endswith("__"):
+                # special attributes of classes mostly exist in CPython: an unmodelled one is an analysis gap, not an
+                # AttributeError of the program
+                raise self.unsupported(f"special attribute {name} of class {obj.name}")
             raise self.exc("AttributeError", f"type object '{obj.name}' has no attribute '{name}'")
         if isinstance(obj, ModuleRef):
             return self.module_attr(obj, name)
@@ -1424,6 +1438,11 @@ class Interp:
                 m = self.models.ext_base_attr(self, obj.obj, eb, name) if isinstance(obj.obj, Obj) else self.models.ext_class_attr(self, obj.obj, eb, name)
                 if m is not MISSING:
                     return m
+            if name.startswith("__") and name.endswith("__") and name not in ("__init_subclass__", "__init__"):
+                raise self.unsupported(f"special method {name} through super()")
+            if name in ("__init_subclass__", "__init__"):
+                # every class ultimately derives from object, whose hooks take no arguments and do nothing
+                return ExtMethod(obj.obj, "object_init", name)
             raise self.exc("AttributeError", f"'super' object has no attribute '{name}'")
         if isinstance(obj, SingleDispatch):
             if name == "register":
